@@ -8,6 +8,7 @@ that may go below zero becomes unknown.  Assumptions (listed in every evidence f
   A1  container lengths are below 2^31
   A2  64-bit additions / multiplications of offsets and lengths do not exceed 2^64
 """
+import os
 import re
 
 from .absdom import (FULL, TOP, State, iv_add, iv_empty, iv_join, iv_meet, iv_mul, iv_neg, iv_sub, iv_within,
@@ -74,6 +75,9 @@ class Analyzer:
         self.watch = None               # optional predicate on callee paths: argument values are recorded in Result.call_states
         self.closure_seeds = {}         # closure body id -> {arg local: (lo, hi)}
         self.mag = False                # C03: emit MAG obligations at loop-count / allocation-size / dimension sinks
+        self.debug_head = None          # (block, callback(pred, old, new_in, joined)) for debugging a loop head
+        self.restart_nested = not os.environ.get('VERIF_NO_RESTART')      # solve nested loops again once the enclosing fix-point is known (see analyze)
+        self.narrow_passes = int(os.environ.get('VERIF_NARROW', '2'))          # descending iterations after the ascending fix-point (see analyze)
         self.cargs = {}                 # values of the body's const generic parameters (index -> int) for a specialised analysis
 
     # ------------------------------------------------------------------ types
@@ -566,6 +570,10 @@ class Analyzer:
                 if a2[2] - b2[2] <= c2:
                     continue          # became trivially true
                 return None
+            if a2[1] is not None and a2[1] == b2[1]:
+                if a2[2] - b2[2] <= c2:
+                    continue          # trivially true
+                return None           # the strengthened form is unsatisfiable: nothing a caller could establish
             out.append((a2, b2, c2))
         if not out:
             return None
@@ -1535,65 +1543,165 @@ class Analyzer:
                 st0.set_iv(t, lo, hi)
         ins[0] = st0
         visits = {}
-        work = {0}
-        iters = 0
+        iters = [0]
         limit = 80 * max(8, len(rpo))
         edge = {}
         pred = body.pred
-        while work:
-            bi = min(work, key=lambda x: order.get(x, 1 << 30))
-            work.discard(bi)
-            iters += 1
-            if iters > limit:
-                raise RuntimeError("absint: no convergence in %s" % body.id)
-            st = ins[bi]
-            outs = [] if st.bottom else self.transfer_block(bi, st.copy())
-            got = {}
-            for succ, so in outs:
-                if so is None or so.bottom:
-                    continue
-                got[succ] = so if succ not in got else got[succ].join(so)
-            for succ in body.succ[bi]:
-                if succ in got:
-                    edge[(bi, succ)] = got[succ]
-                elif (bi, succ) in edge:
-                    del edge[(bi, succ)]
-                # in-state = join of the current out-states of all predecessors (not of their history)
-                new_in = None
-                for p in pred[succ]:
-                    e = edge.get((p, succ))
-                    if e is None:
+        back = set(body.back_edges)
+
+        def solve(work, allowed=None):
+            while work:
+                bi = min(work, key=lambda x: order.get(x, 1 << 30))
+                work.discard(bi)
+                iters[0] += 1
+                if iters[0] > limit:
+                    raise RuntimeError("absint: no convergence in %s" % body.id)
+                st = ins[bi]
+                outs = [] if st.bottom else self.transfer_block(bi, st.copy())
+                got = {}
+                for succ, so in outs:
+                    if so is None or so.bottom:
                         continue
-                    new_in = e if new_in is None else new_in.join(e)
-                if new_in is None:
-                    # every incoming edge has become infeasible: the block is dead now (drop what an earlier, less precise
-                    # iteration left there, and let its own out-edges disappear)
+                    got[succ] = so if succ not in got else got[succ].join(so)
+                for succ in body.succ[bi]:
+                    if succ in got:
+                        edge[(bi, succ)] = got[succ]
+                    elif (bi, succ) in edge:
+                        del edge[(bi, succ)]
+                    if allowed is not None and succ not in allowed:
+                        continue
+                    # in-state = join of the current out-states of all predecessors (not of their history)
+                    new_in = None
+                    for p in pred[succ]:
+                        e = edge.get((p, succ))
+                        if e is None:
+                            continue
+                        new_in = e if new_in is None else new_in.join(e)
+                    if new_in is None:
+                        # every incoming edge has become infeasible: the block is dead now (drop what an earlier, less precise
+                        # iteration left there, and let its own out-edges disappear)
+                        old = ins.get(succ)
+                        if old is not None and not old.bottom and succ != 0:
+                            dead = State()
+                            dead.bottom = True
+                            ins[succ] = dead
+                            work.add(succ)
+                        continue
                     old = ins.get(succ)
-                    if old is not None and not old.bottom and succ != 0:
-                        dead = State()
-                        dead.bottom = True
-                        ins[succ] = dead
-                        work.add(succ)
-                    continue
-                old = ins.get(succ)
-                if old is None:
-                    ins[succ] = new_in
-                    work.add(succ)
-                    continue
-                if succ in heads:
-                    if new_in.leq(old):
-                        continue
-                    j = old.join(new_in)
-                    visits[succ] = visits.get(succ, 0) + 1
-                    if visits[succ] > 2:
-                        j = old.widen(j, thresholds)
-                    if not (j.leq(old) and old.leq(j)):
-                        ins[succ] = j
-                        work.add(succ)
-                else:
-                    if not (new_in.leq(old) and old.leq(new_in)):
+                    if old is None:
                         ins[succ] = new_in
                         work.add(succ)
+                        continue
+                    if succ in heads:
+                        if new_in.leq(old):
+                            continue
+                        j = old.join(new_in)
+                        if (bi, succ) in back or os.environ.get('VERIF_WIDEN_ALL'):
+                            visits[succ] = visits.get(succ, 0) + 1
+                            if visits[succ] > 2:
+                                j = old.widen(j, thresholds)
+                        # (growth that comes in over the loop's entry edge is the enclosing loop's business: it is widened at
+                        # that loop's head, not here, where the old state may hold as a constant what is a relation now)
+                        if self.debug_head is not None and succ == self.debug_head[0]:
+                            self.debug_head[1](bi, old, new_in, j)
+                        if not (j.leq(old) and old.leq(j)):
+                            ins[succ] = j
+                            work.add(succ)
+                    else:
+                        if not (new_in.leq(old) and old.leq(new_in)):
+                            ins[succ] = new_in
+                            work.add(succ)
+
+        solve({0})
+        # restart of nested loops: an inner loop head was widened while the *outer* loop was still growing what flows into
+        # it, and what it was widened to feeds itself through its own back edge, so no descending pass can shrink it.
+        # Once the outer fix-point is known, the inner loop is solved again from what enters it now.
+        if self.restart_nested and len(heads) > 1:
+            loops = {h: body.natural_loop(h) for h in heads}
+            for h in sorted(heads, key=lambda x: order.get(x, 1 << 30)):
+                if not any(h in lp and h2 != h for h2, lp in loops.items()):
+                    continue
+                lp = loops[h]
+                old_h = ins.get(h)
+                if old_h is None or old_h.bottom:
+                    continue
+                ent = None
+                for p in pred[h]:
+                    if p in lp:
+                        continue
+                    e = edge.get((p, h))
+                    if e is not None:
+                        ent = e if ent is None else ent.join(e)
+                if ent is None or not ent.leq(old_h) or old_h.leq(ent):
+                    continue
+                saved_ins = {x: ins.get(x) for x in lp}
+                saved_edge = {k: v for k, v in edge.items() if k[0] in lp}
+                for x in lp:
+                    ins.pop(x, None)
+                    visits.pop(x, None)
+                for k in saved_edge:
+                    del edge[k]
+                ins[h] = ent.copy()
+                try:
+                    solve({h}, allowed=lp)
+                    okr = True
+                except RuntimeError:
+                    okr = False
+                if not okr:
+                    # no convergence: keep the first solution
+                    for x in lp:
+                        if saved_ins[x] is None:
+                            ins.pop(x, None)
+                        else:
+                            ins[x] = saved_ins[x]
+                    for k in [k for k in edge if k[0] in lp]:
+                        del edge[k]
+                    edge.update(saved_edge)
+                else:
+                    for x in lp:
+                        if x not in ins and saved_ins[x] is not None:
+                            dead = State()
+                            dead.bottom = True
+                            ins[x] = dead
+                        elif saved_ins[x] is not None and not saved_ins[x].bottom and not ins[x].bottom:
+                            ins[x] = saved_ins[x].meet_facts(ins[x])
+        iters = iters[0]
+        # descending (narrowing) passes: the ascending phase accumulates at loop heads, so an inner head keeps what it was
+        # widened to while an *outer* loop was still growing; re-applying the transfer functions from the post-fixpoint
+        # (in reverse post-order, no widening) only ever shrinks the states and stays above the least fixpoint
+        for _ in range(self.narrow_passes):
+            changed = False
+            for bi in rpo:
+                if bi != 0:
+                    new_in = None
+                    for p in pred[bi]:
+                        e = edge.get((p, bi))
+                        if e is not None:
+                            new_in = e if new_in is None else new_in.join(e)
+                    old = ins.get(bi)
+                    # (what flows in over the current edges is a sound entry state whatever its order relation to the old one)
+                    if new_in is not None and old is not None and not old.bottom and not (new_in.leq(old) and old.leq(new_in)):
+                        # both describe every state that reaches the block: so does their conjunction
+                        m = old.meet_facts(new_in)
+                        if not (m.leq(old) and old.leq(m)):
+                            ins[bi] = m
+                            changed = True
+                st = ins.get(bi)
+                if st is None or st.bottom:
+                    continue
+                outs = self.transfer_block(bi, st.copy())
+                got = {}
+                for succ, so in outs:
+                    if so is None or so.bottom:
+                        continue
+                    got[succ] = so if succ not in got else got[succ].join(so)
+                for succ in body.succ[bi]:
+                    if succ in got:
+                        edge[(bi, succ)] = got[succ]
+                    elif (bi, succ) in edge:
+                        del edge[(bi, succ)]
+            if not changed:
+                break
         self.res.iterations = iters
         self.res.in_states = ins
         self.res.edge_states = edge
@@ -1630,6 +1738,9 @@ class Analyzer:
                         ts.add(c["val"])
                         ts.add(c["val"] - 1)
                         ts.add(c["val"] + 1)
+        for v in (self.cargs or {}).values():
+            if isinstance(v, int) and abs(v) < (1 << 33):
+                ts.update((v - 1, v, v + 1))
         return sorted(ts)
 
     def transfer_block(self, bi, st):
